@@ -68,7 +68,7 @@ try:
     meta['detected_by'] = det[:6]
     os.makedirs(out, exist_ok=True)
     for f in ('patch.diff', 'demo.py', 'README.md'):
-        if os.path.exists(os.path.join(src, f)):
+        if os.path.exists(os.path.join(src, f)) and os.path.realpath(src) != os.path.realpath(out):
             shutil.copy(os.path.join(src, f), os.path.join(out, f))
     meta['how_to_run_demo'] = ('copy this directory to <worktree>/_out/<variant>/ and run `cd <worktree> && /venv/bin/python '
                                '_out/<variant>/demo.py`; a demo that names /tmp/mut_CXX expects the worktree at that path')
